@@ -25,7 +25,7 @@ def runCase (c : Case) : IO Unit := do
   | "logseq" => runLogSeq c emit
   | "dac" => runDac c emit
   | "pool" => runPool c emit
-  | "codes" | "bits" | "repair" | "rpdac" => runCheckStreams c emit
+  | "codes" | "bits" | "repair" | "rpdac" | "blkimg" => runCheckStreams c emit
   | "chunks" => runChunkStream c emit
   | "sweep" => runSweep c emit
   | "dacimg" => runDacImg c emit
